@@ -76,7 +76,7 @@ func runC20(c *Ctx) {
 			n++
 			c.Check(s.OK, "R1.index", name+"|table index "+s.Expr, w.Pos(s.Instr.Pos()), s.Why, "the condition table can be indexed out of range: "+s.Why)
 		}
-		c.Floor("R1.index", n, 2, "indexes into the condition table in "+name)
+		c.Floor("R1.index", n, 1, "indexes into the condition table in "+name)
 		// every cond call is under msg < len
 		inRange := func(b *ssa.BasicBlock) bool {
 			return f.Any(b, func(l Lit) bool {
@@ -204,7 +204,8 @@ func runC20(c *Ctx) {
 	}
 	c.Saw(serve)
 	var bc *ssa.Call
-	for _, call := range callsIn(serve) {
+	w.Focus(serve)
+	for _, call := range w.callsInDeep(serve) {
 		if cv, ok := call.(*ssa.Call); ok && cv.Call.StaticCallee() == bcastFn {
 			bc = cv
 		}
@@ -235,8 +236,53 @@ func runC20(c *Ctx) {
 		return
 	}
 	okAll := true
+	// the instruction of ServeAgent that performs the broadcast: the call itself, or the call of the helper holding it
+	var site ssa.Instruction = bc
+	for hop := 0; hop < 3 && site.Parent() != serve; hop++ {
+		h := site.Parent()
+		sites := w.sitesIn(serve, h)
+		if len(sites) != 1 {
+			okAll = false
+			break
+		}
+		// inside the helper every return was preceded by the broadcast or by a failed shim-server type test
+		hf := w.factsOf(h)
+		for _, r := range liveReturns(h) {
+			if MustPassFromEntry(h, r, map[ssa.Instruction]bool{site: true}) {
+				continue
+			}
+			hasFailedAssert := func(facts map[Lit]bool) bool {
+				for l := range facts {
+					if ex, ok := l.V.(*ssa.Extract); ok && !l.Pol && ex.Index == 1 {
+						if ta, ok := ex.Tuple.(*ssa.TypeAssert); ok && ta.CommaOk {
+							return true
+						}
+					}
+				}
+				return false
+			}
+			failed := hasFailedAssert(hf.Local(r.Block()))
+			if !failed && len(r.Block().Preds) > 0 && len(r.Block().Instrs) == 1 {
+				// a merge block holding only the return: every edge into it carries a failed type test
+				failed = true
+				for _, p := range r.Block().Preds {
+					if !hasFailedAssert(w.factsOnEdge(p, r.Block())) {
+						failed = false
+					}
+				}
+			}
+			if !failed {
+				okAll = false
+			}
+		}
+		site = sites[0]
+	}
+	if site.Parent() != serve {
+		okAll = false
+		site = serve.Blocks[0].Instrs[0]
+	}
 	for _, p := range dispatch.Preds {
-		if p == bc.Block() || bc.Block().Dominates(p) {
+		if p == site.Block() || site.Block().Dominates(p) {
 			continue
 		}
 		ef := w.factsOnEdge(p, dispatch)
@@ -252,7 +298,7 @@ func runC20(c *Ctx) {
 			okAll = false
 		}
 	}
-	c.Check(okAll && !dispatch.Dominates(bc.Block()), "R3.loop", "ServeAgent|broadcast precedes dispatch on every path", w.Pos(bc.Pos()), "each edge into the dispatch comes from the broadcast or from a failed shim-server type test", "a request can be dispatched without its code having been broadcast first (or the broadcast happens after dispatch)")
+	c.Check(okAll && !dispatch.Dominates(site.Block()), "R3.loop", "ServeAgent|broadcast precedes dispatch on every path", w.Pos(bc.Pos()), "each edge into the dispatch comes from the broadcast or from a failed shim-server type test", "a request can be dispatched without its code having been broadcast first (or the broadcast happens after dispatch)")
 	// broadcast is not restricted to some codes: facts at the broadcast contain no comparison of req[0]
 	f := w.Facts(serve)
 	restricted := f.Any(bc.Block(), func(l Lit) bool {
@@ -271,11 +317,33 @@ func runC20(c *Ctx) {
 	if cw := w.Method(yubiPkg, "client", "Wait"); cw != nil {
 		c.Saw(cw)
 		ok := false
-		for _, call := range callsIn(cw) {
+		w.Focus(cw)
+		for _, call := range w.callsInDeep(cw) {
 			if callee := call.Common().StaticCallee(); callee != nil && callee == clientExchange(w) {
-				ex := w.Expr(call.Common().Args[len(call.Common().Args)-1])
+				reqv := w.canon(cw, call.Common().Args[len(call.Common().Args)-1])
+				ex := w.Expr(reqv)
 				// append([1]byte{wait}[:], code)
-				ok = strings.Contains(ex, "builtin:append") && findStoreOf(w, call.Common().Args[len(call.Common().Args)-1], "p1")
+				ok = strings.Contains(ex, "builtin:append") && findStoreOf(w, reqv, "p1")
+				// or the two-byte literal []byte{wait, code}
+				if sl, isSl := reqv.(*ssa.Slice); isSl && !ok {
+					if al, isAl := sl.X.(*ssa.Alloc); isAl && arrayLen(al.Type()) == 2 {
+						if refs := al.Referrers(); refs != nil {
+							for _, r := range *refs {
+								if ia, isIA := r.(*ssa.IndexAddr); isIA {
+									if k, isK := intConst(ia.Index); isK && k == 1 {
+										if rr := ia.Referrers(); rr != nil {
+											for _, u := range *rr {
+												if st, isSt := u.(*ssa.Store); isSt && w.Expr(st.Val) == "p1" {
+													ok = true
+												}
+											}
+										}
+									}
+								}
+							}
+						}
+					}
+				}
 			}
 		}
 		c.Check(ok, "R3.loop", "client.Wait|request carries the code", w.FnPos(cw), "append([]byte{wait}, code)", "the client's wait request does not carry the caller's code")
